@@ -4,7 +4,6 @@ package zzverif
 
 import (
 	didtypes "github.com/SaoNetwork/sao/x/did/types"
-	nodekeeper "github.com/SaoNetwork/sao/x/node/keeper"
 	nodetypes "github.com/SaoNetwork/sao/x/node/types"
 	"github.com/SaoNetwork/sao/zzverif/sym"
 	sdk "github.com/cosmos/cosmos-sdk/types"
@@ -35,9 +34,11 @@ func Ob_C01_DidUpdate_Clock() {
 }
 
 // C01/C03/C20 D-global: the role decision of the delegation hook does not depend on what an earlier
-// (possibly failed or merely simulated) transaction left in process memory.
+// transaction that failed after its Before hook, or was merely simulated (gas estimation), left in process
+// memory. Replica B never saw that transaction; replica A executed it and discarded its writes.
 func Ob_C01C03C20_Hook_GlobalResidue() {
 	w := NewWorld()
+	concreteNodeParams(w, 1000000, 1000000000000) // validated default thresholds (the decision does not depend on which)
 	del, val := sym.String("delegator"), sym.String("validator")
 	delAddr, e1 := sdk.AccAddressFromBech32(del)
 	valAddr, e2 := sdk.ValAddressFromBech32(val)
@@ -46,28 +47,43 @@ func Ob_C01C03C20_Hook_GlobalResidue() {
 	w.Staking.DeclareValidator(val)
 	n0, isNode := w.HookNode.GetNode(w.Ctx, del)
 	sym.Assume(isNode && n0.Role <= 1)
+	sym.Assume(w.HookNode.GetSharesBeforeModified(w.Ctx).IsZero()) // no hook pair is open at a transaction boundary
+	// the earlier transaction touches some other delegation
+	del2, val2 := sym.String("otherDelegator"), sym.String("otherValidator")
+	del2Addr, e3 := sdk.AccAddressFromBech32(del2)
+	val2Addr, e4 := sdk.ValAddressFromBech32(val2)
+	sym.Assume(e3 == nil && e4 == nil && del2 != del && val2 != val)
+	w.Staking.DeclareDelegation(del2, val2)
+	earlier := sym.Int("earlierTx") // 0: fails between its two hooks, 1: complete but only simulated
+	sym.Assume(earlier == 0 || earlier == 1)
 	hooks := w.HookNode.Hooks()
 	snap := w.Snapshot()
-	nodekeeper.VerifSetSharesBeforeModified(sym.DecNonNeg("residue")) // whatever an earlier transaction left behind
 	// a panic inside a staking hook aborts the staking transaction (baseapp recovers it in DeliverTx)
-	p1, _ := sym.Catch(func() { hooks.AfterDelegationModified(w.Ctx, delAddr, valAddr) })
-	n1, _ := w.HookNode.GetNode(w.Ctx, del)
+	pB, _ := sym.Catch(func() { hooks.AfterDelegationModified(w.Ctx, delAddr, valAddr) })
+	nB, _ := w.HookNode.GetNode(w.Ctx, del)
 	w.Rollback(snap)
-	nodekeeper.VerifSetSharesBeforeModified(sdk.NewDec(0)) // a freshly started process
-	p2, _ := sym.Catch(func() { hooks.AfterDelegationModified(w.Ctx, delAddr, valAddr) })
-	n2, _ := w.HookNode.GetNode(w.Ctx, del)
-	if p1 || p2 {
-		sym.AssertKF("C03.same-abort-regardless-of-process-memory", p1 == p2, sym.KF("KF-C03-1", true))
+	sym.Catch(func() {
+		hooks.BeforeDelegationSharesModified(w.Ctx, del2Addr, val2Addr)
+		if earlier == 1 {
+			hooks.AfterDelegationModified(w.Ctx, del2Addr, val2Addr)
+		}
+	})
+	w.Rollback(snap) // its writes are discarded; process memory is not
+	pA, _ := sym.Catch(func() { hooks.AfterDelegationModified(w.Ctx, delAddr, valAddr) })
+	nA, _ := w.HookNode.GetNode(w.Ctx, del)
+	if pA || pB {
+		sym.AssertKF("C03.same-abort-regardless-of-process-memory", pA == pB, sym.KF("KF-C03-1", true))
 		return
 	}
 	sym.Cover("C03.hook-two-runs")
-	sym.AssertKF("C03.role-independent-of-process-memory", n1.Role == n2.Role, sym.KF("KF-C03-1", true))
+	sym.AssertKF("C03.role-independent-of-process-memory", nA.Role == nB.Role, sym.KF("KF-C03-1", true))
 }
 
-// C03 R-writers: every path of BeforeDelegationSharesModified followed by the pairing After hook leaves the
-// process global at its reset value (no residue after a complete hook pair).
+// C03 R-writers: a complete Before/After hook pair leaves nothing behind - neither in the store (the
+// hand-over entry is consumed) nor anywhere a later hook would read it.
 func Ob_C03_Hook_PairResetsGlobal() {
 	w := NewWorld()
+	concreteNodeParams(w, 1000000, 1000000000000)
 	del, val := sym.String("delegator"), sym.String("validator")
 	delAddr, e1 := sdk.AccAddressFromBech32(del)
 	valAddr, e2 := sdk.ValAddressFromBech32(val)
@@ -76,8 +92,8 @@ func Ob_C03_Hook_PairResetsGlobal() {
 	w.Staking.DeclareValidator(val)
 	d := w.Staking.Delegation(w.Ctx, delAddr, valAddr)
 	sym.Assume(d != nil)
+	sym.Assume(w.HookNode.GetSharesBeforeModified(w.Ctx).IsZero())
 	hooks := w.HookNode.Hooks()
-	nodekeeper.VerifSetSharesBeforeModified(sdk.NewDec(0))
 	panicked, _ := sym.Catch(func() {
 		hooks.BeforeDelegationSharesModified(w.Ctx, delAddr, valAddr)
 		hooks.AfterDelegationModified(w.Ctx, delAddr, valAddr)
@@ -86,7 +102,7 @@ func Ob_C03_Hook_PairResetsGlobal() {
 		return
 	}
 	sym.Cover("C03.hook-pair")
-	sym.Assert("C03.pair-resets-global", nodekeeper.VerifGetSharesBeforeModified().IsZero())
+	sym.Assert("C03.pair-consumes-handover", w.HookNode.GetSharesBeforeModified(w.Ctx).IsZero())
 	_ = nodetypes.ModuleName
 }
 
